@@ -364,7 +364,10 @@ func configureDefaultCustomAdapters(git Env, m *concreteManifest) {
 func configureCustomAdapters(git Env, m *concreteManifest) {
 	configureDefaultCustomAdapters(git, m)
 
-	pathRegex := regexp.MustCompile(`lfs.customtransfer.([^.]+).path`)
+	// The whole key has to be lfs.customtransfer.<name>.path: a key that
+	// merely contains such text (say remote.<x>.lfsurl, which a
+	// repository's .lfsconfig may set) must not name a program to run.
+	pathRegex := regexp.MustCompile(`^lfs\.customtransfer\.([^.]+)\.path$`)
 	for k, _ := range git.All() {
 		match := pathRegex.FindStringSubmatch(k)
 		if match == nil {
